@@ -2922,6 +2922,16 @@ func (p *Posix) PutObject(ctx context.Context, po s3response.PutObjectInput) (s3
 		return s3response.PutObjectOutput{}, err
 	}
 
+	// Lock settings given with the upload are stored once the object is in
+	// place: whether the bucket takes them has to be known before that, an
+	// upload refused for them must not have replaced the object.
+	if po.ObjectLockLegalHoldStatus == types.ObjectLockLegalHoldStatusOn || po.ObjectLockMode != "" {
+		err = p.isBucketObjectLockEnabled(*po.Bucket)
+		if err != nil {
+			return s3response.PutObjectOutput{}, err
+		}
+	}
+
 	name := filepath.Join(*po.Bucket, *po.Key)
 	verifhook.At("put.entry", *po.Bucket, *po.Key)
 
